@@ -7,6 +7,8 @@ from jaqalpaq.error import JaqalError, nesting_guard
 from jaqalpaq.core.algorithm.visitor import Visitor
 from jaqalpaq.core import circuitbuilder
 from jaqalpaq.core.parameter import AnnotatedValue
+from jaqalpaq.core.macro import Macro
+from jaqalpaq.core.register import Register
 
 
 @nesting_guard
@@ -92,9 +94,16 @@ class MapFiller(Visitor):
         sexpr = [
             "gate",
             gate.name,
-            *(self.visit(param) for param in gate.parameters.values()),
+            *(self.visit_argument(gate, param) for param in gate.parameters.values()),
         ]
         return sexpr
+
+    def visit_argument(self, gate, param):
+        """A whole register alias handed to a macro stays as it is: which
+        of its qubits the macro uses is only known once it is expanded."""
+        if isinstance(gate.gate_def, Macro) and isinstance(param, Register):
+            return param
+        return self.visit(param)
 
     def visit_NamedQubit(self, qubit):
         """Map this to a fundamental register and index and return it."""
